@@ -1,6 +1,7 @@
 package props
 
 import (
+	"math/big"
 	"bufio"
 	"encoding/json"
 	"fmt"
@@ -243,6 +244,33 @@ func genGenesisState(t *rapid.T) *types.GenesisState {
 		}
 		g.TokenMessengerList = append(g.TokenMessengerList, types.RemoteTokenMessenger{DomainId: rapid.SampledFrom([]uint32{0, 1, 2, 3, 256, 1<<32 - 1}).Draw(t, "msgrdom"), Address: a})
 	}
+	if rapid.IntRange(0, 14).Draw(t, "biglist") == 0 {
+		// one list longer than a default query page (100): an export that goes through a paginated
+		// helper would return only its first page
+		k := rapid.IntRange(101, 125).Draw(t, "bign")
+		switch rapid.IntRange(0, 4).Draw(t, "bigwhich") {
+		case 0:
+			for i := 0; i < k; i++ {
+				g.AttesterList = append(g.AttesterList, types.Attester{Attester: fmt.Sprintf("04%0128x", 1000+i)})
+			}
+		case 1:
+			for i := 0; i < k; i++ {
+				g.PerMessageBurnLimitList = append(g.PerMessageBurnLimitList, types.PerMessageBurnLimit{Denom: fmt.Sprintf("udenom%03d", i), Amount: sim.Int(big.NewInt(int64(i)))})
+			}
+		case 2:
+			for i := 0; i < k; i++ {
+				g.TokenPairList = append(g.TokenPairList, types.TokenPair{RemoteDomain: 77, RemoteToken: attest.Keccak([]byte{byte(i), 'b'}), LocalToken: "uusdc"})
+			}
+		case 3:
+			for i := 0; i < k; i++ {
+				g.UsedNoncesList = append(g.UsedNoncesList, types.Nonce{SourceDomain: 9, Nonce: uint64(7000 + i)})
+			}
+		default:
+			for i := 0; i < k; i++ {
+				g.TokenMessengerList = append(g.TokenMessengerList, types.RemoteTokenMessenger{DomainId: uint32(5000 + i), Address: sim.Pad32([]byte{byte(i), 1})})
+			}
+		}
+	}
 	if !collide {
 		dedupGenesis(g)
 	}
@@ -470,7 +498,7 @@ func (c *c17hist) Summary(w *sim.World) (string, []string) {
 
 var C17 = register(&HistProp{ID: "C17",
 	Genesis: func(t *rapid.T) *sim.GenSpec {
-		return sim.DrawGenesis(t, sim.GenOpts{UsedInGen: true, UpperPairGen: true, ManyUsed: true, ShortToken: true, Decoys: true, AbsentOpt: true, CaseLimits: true})
+		return sim.DrawGenesis(t, sim.GenOpts{UsedInGen: true, UpperPairGen: true, ManyUsed: true, ShortToken: true, Decoys: true, AbsentOpt: true, CaseLimits: true, ManyRegistry: true})
 	},
 	Next: func(g *sim.G, i int) *sim.Op {
 		return Mix{Send: 2, Dep: 2, Recv: 3, Admin: 12, DepValid: 85, RecvBroken: 15, AdminHolder: 88}.next(g)
